@@ -72,6 +72,7 @@ static void run_history(const std::string& line, bool verbose, FILE* out) {
         else if (k == 'a') obj[n]->assign(*obj[m]);
         else if (k == 'w') obj[n]->swap_with(*obj[m]);
         else if (k == 'm') obj[n]->move_from(*obj[m]);
+        else if (k == 'f') { if (!mutate_bad(ocl, obj[n], m)) { fprintf(out, " | X no-mutator\n"); return; } }
         else if (k == 's') { if (!mutate(ocl, obj[n], m)) { fprintf(out, " | X no-mutator\n"); return; } }
         else if (k == 'u') { }          // one more round of probes (below): matters for caches / statics
         else if (k == 'd') { g_args_note.erase(obj[n]); delete obj[n]; obj[n] = 0; }
